@@ -6,6 +6,7 @@ import (
 	"strings"
 
 	"pgregory.net/rapid"
+	"verifharness/internal/pbt"
 )
 
 // Soup is an arbitrary input string for the totality check: Pre + Unit*Rep + Post.
@@ -103,8 +104,54 @@ func soupTokens(t *rapid.T, label string, max int) string {
 	return sb.String()
 }
 
+// hugeUnits: fragments repeated about a million times (megabyte inputs, parsed in a child process).
+var hugeUnits = []string{"(", "((A|", "{-", "PERMUTE(", "!", "\x01", "#", "a,", "'", "x ", "1+", "JOIN t ON a = b ", "A ", "a AND "}
+
+func invalidRun(unit []byte) bool {
+	if len(unit) == 0 {
+		return false
+	}
+	for _, c := range unit {
+		switch {
+		case c == '!' || c == '#' || c == '@' || c == '$' || c == '%' || c == '^' || c == '&' || c == '~' || c == '\\' || c == ':' || c == ';':
+		case c < 0x20 && c != '\t' && c != '\n' && c != '\r' && c != 0:
+		case c >= 0x7f:
+		default:
+			return false
+		}
+	}
+	return true
+}
+
+func (s *Soup) deepPattern() bool {
+	return strings.Contains(strings.ToUpper(string(s.Pre)), "PATTERN") && (strings.Contains(string(s.Unit), "(") || strings.Contains(string(s.Unit), "{")) && s.Rep >= 500000
+}
+
+func (s *Soup) longInvalidRun() bool {
+	return invalidRun(s.Unit) && s.Rep*len(s.Unit) >= 3000000
+}
+
 func genSoup(t *rapid.T) *Soup {
 	sp := &Soup{}
+	// (mid-range values of a rapid integer draw are rare: about 1e-4 each, so this is ~1 in 2000 soups)
+	if h := rapid.IntRange(0, 2999).Draw(t, "huge"); h >= 1400 && h < 1405 {
+		sp.Mode = "huge"
+		sp.Pre = []byte(pick(t, "pre", soupPrefixes))
+		sp.Unit = []byte(pick(t, "unit", hugeUnits))
+		sp.Rep = 1200000 / len(sp.Unit)
+		if len(sp.Unit) <= 2 {
+			sp.Rep = rapid.SampledFrom([]int{1200000, 8000000}).Draw(t, "rep")
+		}
+		// shapes of listed open findings are kept out of the main search by construction
+		if pbt.Open("C11", "deep-pattern-nesting") && sp.deepPattern() {
+			sp.Pre = []byte("SELECT a FROM s WHERE ")
+		}
+		if pbt.Open("C11", "long-invalid-run") && sp.longInvalidRun() {
+			sp.Rep = 1200000
+		}
+		sp.Text = strconv.Quote(string(sp.Pre)) + " + " + strconv.Quote(string(sp.Unit)) + fmt.Sprintf(" x %d", sp.Rep)
+		return sp
+	}
 	switch k := rapid.IntRange(0, 19).Draw(t, "soupMode"); {
 	case k < 5:
 		sp.Mode = "tokens"
@@ -138,7 +185,7 @@ func mutatedStatement(t *rapid.T) string {
 	var s *Stmt
 	switch rapid.IntRange(0, 2).Draw(t, "mshape") {
 	case 0:
-		s = genDirect(t)
+		s = genDirect(t, false)
 	case 1:
 		s = genWindowStmt(t)
 	default:
